@@ -393,12 +393,13 @@ pub struct Encoding;
 pub struct Utf16LeStandIn;
 pub const UTF_16LE: Utf16LeStandIn = Utf16LeStandIn;
 impl Utf16LeStandIn {
-    // TRUSTED: A-enc
+    // TRUSTED: A-enc (not called by the code under contract any more; kept so that a return to the sniffing `decode` is decided -- it
+    // breaks C03,C19.wide_str_text -- instead of rejected)
     #[verifier::external_body]
     pub fn decode<'a>(&self, bytes: &'a [u8]) -> (r: (Cow<'a, str>, Encoding, bool))
         ensures cow_chars(r.0) == (if has_bom(bytes@) { dec_sniffed(bytes@) } else { dec16(bytes@) }),
     { unimplemented!() }
-    // TRUSTED: A-enc (what a repaired wide_str would call)
+    // TRUSTED: A-enc -- encoding_rs: "Decode complete input to Cow<'a, str> without BOM handling" (what wide_str calls)
     #[verifier::external_body]
     pub fn decode_without_bom_handling<'a>(&self, bytes: &'a [u8]) -> (r: (Cow<'a, str>, bool))
         ensures cow_chars(r.0) == dec16(bytes@),
@@ -418,12 +419,10 @@ impl Utf16LeStandIn {
             && r->Err_0->ws_len == (if buf@.len() < 4 { 4 } else { 4 + 2 * le32(buf@) }),
         //# C03,C19.wide_str_len
         r is Ok ==> *final(str_len) == 4 + 2 * le32(buf@),
-        // [MS-XLSB] 2.5.168 XLWideString: rgchData is an array of cch UTF-16LE code units -- all of them are text
+        // [MS-XLSB] 2.5.168 XLWideString: rgchData is an array of cch UTF-16LE code units -- all of them are text, also when the first
+        // characters happen to look like a byte order mark (U+FEFF, U+FFFE, or U+BBEF followed by U+xxBF)
         //# C03,C19.wide_str_text
-        r is Ok && !has_bom(buf@.subrange(4, 4 + 2 * le32(buf@))) ==> cow_chars(r->Ok_0) == dec16(buf@.subrange(4, 4 + 2 * le32(buf@))),
-        // ... also when the first characters happen to look like a byte order mark (U+FEFF, U+FFFE, or U+BBEF followed by U+xxBF)
-        //# C19.wide_str_text_leading_bom
-        r is Ok && has_bom(buf@.subrange(4, 4 + 2 * le32(buf@))) ==> cow_chars(r->Ok_0) == dec16(buf@.subrange(4, 4 + 2 * le32(buf@))),
+        r is Ok ==> cow_chars(r->Ok_0) == dec16(buf@.subrange(4, 4 + 2 * le32(buf@))),
 //@@ end
 
 // ---- BrtWsDim ([MS-XLSB] 2.4.820): rwFirst u32 @0, rwLast u32 @4, colFirst u32 @8, colLast u32 @12
@@ -522,6 +521,8 @@ impl<T: CellType> Cell<T> {
 //@@ end
 //@@ endimpl
 
+// (rule r4) the text of an error message: an arbitrary String
+#[verifier::external_body] fn verif_opaque_string() -> String { String::new() }
 //@@ item src/xlsb/cells_reader.rs struct XlsbCellsReader
 
 impl<'a> XlsbCellsReader<'a> {
@@ -646,10 +647,17 @@ pub open spec fn cell_wf(typ: int, p: Seq<u8>, nstr: int) -> bool {
     else if typ == 7 { p.len() >= 12 && le32(p.subrange(8, 12)) < nstr }
     else { false }
 }
-/// what every arm of next_cell takes for granted before indexing: a cell record is long enough for its kind (and its shared string
-/// index is in range), a BrtRowHdr has its 4-byte row number
-pub open spec fn record_long_enough(typ: int, p: Seq<u8>, nstr: int) -> bool {
-    (is_cell_kind(typ) ==> cell_wf(typ, p, nstr)) && (typ == 0x0000 ==> p.len() >= 4)
+/// the payload is long enough for its kind
+pub open spec fn cell_len_ok(typ: int, p: Seq<u8>) -> bool {
+    if typ == 2 || typ == 7 { p.len() >= 12 }
+    else if typ == 3 || typ == 0xB || typ == 4 || typ == 0xA { p.len() >= 9 }
+    else if typ == 5 || typ == 9 { p.len() >= 16 }
+    else if typ == 6 || typ == 8 { p.len() >= 8 }
+    else { false }
+}
+/// what every arm of next_cell needs before indexing: a cell record is long enough for its kind, a BrtRowHdr has its 4-byte row number
+pub open spec fn record_long_enough(typ: int, p: Seq<u8>) -> bool {
+    (is_cell_kind(typ) ==> cell_len_ok(typ, p)) && (typ == 0x0000 ==> p.len() >= 4)
 }
 /// the record carries a value the reader must reject with an error: unknown BErr code, or a string longer than its record
 pub open spec fn cell_rejected(typ: int, p: Seq<u8>) -> bool {
@@ -673,6 +681,8 @@ pub open spec fn val_rk(p: Seq<u8>, fmts: Seq<CellFormat>, is_1904: bool, v: Dat
     let raw = le32(p.subrange(8, 12));
     if rk_is_int(raw) {
         if rk_x100(raw) { exists|x: f64| v == wrap_f64(x, fmt, is_1904) }   // num/100: the int->float conversion is uninterpreted in Verus
+        // a whole number with a date/time format is a date (a duration) in whole days, like xls' format_excel_i64; otherwise an Int
+        else if is_date_fmt(fmt) { exists|x: f64| v == wrap_f64(x, fmt, is_1904) }
         else { v == DataRef::Int(rk_int(raw) as i64) }
     } else {
         if rk_x100(raw) { v == wrap_f64(fdiv(f64_of_bits(rk_float_bits(raw)), 100.0f64), fmt, is_1904) }
@@ -706,7 +716,7 @@ pub open spec fn is_date_fmt(f: Option<CellFormat>) -> bool { f == Some(CellForm
         r is Ok ==> exists|k: nat, t: Seq<u8>| #[trigger] boundary(iter.rem(), k, t) && rec_ok(t) && rec_typ(t) == 0x0094
             && rec_len(t) >= 16 && dims_ok(rec_payload(t), r->Ok_0.dims()),
 //@@ end
-//@@ fn src/xlsb/cells_reader.rs XlsbCellsReader::next_cell props=C03 entry ret=r
+//@@ fn src/xlsb/cells_reader.rs XlsbCellsReader::next_cell props=C03 entry ret=r r4
 //@@ sig
     ensures
         //# C03.reader_frame
@@ -726,6 +736,9 @@ pub open spec fn is_date_fmt(f: Option<CellFormat>) -> bool { f == Some(CellForm
         //# C03.cell_rejected_err
         ({ let sc = scan(old(self).rem(), old(self).cur_row()); good_cell(sc, old(self).strs().len() as int) && cell_rejected(sc->typ, sc->payload)
             ==> r is Err }),
+        // a cell record too short for its kind, or a shared string index beyond the table, is an error (never a panic)
+        //# C06.malformed_cell_err
+        ({ let sc = scan(old(self).rem(), old(self).cur_row()); sc is Cell && !cell_wf(sc->typ, sc->payload, old(self).strs().len() as int) ==> r is Err }),
         //# C03.end_none
         scan(old(self).rem(), old(self).cur_row()) is End ==> r is Ok && r->Ok_0 is None,
         //# C03.truncated_err
@@ -735,7 +748,7 @@ pub open spec fn is_date_fmt(f: Option<CellFormat>) -> bool { f == Some(CellForm
         ({ let sc = scan(old(self).rem(), old(self).cur_row());
             good_cell(sc, old(self).strs().len() as int) && (sc->typ == 5 || sc->typ == 9 || (sc->typ == 2 && !rk_is_int(le32(sc->payload.subrange(8, 12)))))
             ==> r is Ok && r->Ok_0 is Some && (r->Ok_0->Some_0.v() is DateTime <==> is_date_fmt(cell_format_spec(old(self).fmts(), sc->payload))) }),
-        // ... and RK numbers stored as integer (xls wraps these through format_excel_i64)
+        // ... and RK numbers stored as integer (with or without the x100 flag; xls wraps these through format_excel_i64)
         //# C10.rk_int_datetime_iff_date_format
         ({ let sc = scan(old(self).rem(), old(self).cur_row());
             good_cell(sc, old(self).strs().len() as int) && sc->typ == 2 && rk_is_int(le32(sc->payload.subrange(8, 12)))
@@ -754,6 +767,9 @@ let verif_out; loop
                 //# C03.cell_record_identified
                 assert(scan(s0, row0) is Malformed
                     || scan(s0, row0) == (Scan::Cell { row: self.row, typ: t, payload: p, rest: self.iter.rem() }));
+                // the length guard and the shared string lookup have established the well-formedness of the record
+                //# C06.cell_wf_checked
+                assert(is_cell_kind(t) && cell_wf(t, p, nstr));
                 if is_cell_kind(t) && cell_wf(t, p, nstr) {
                     //# C03.col_bytes_untouched
                     assert(self.buf@.len() >= 4 && self.buf@[0] == p[0] && self.buf@[1] == p[1] && self.buf@[2] == p[2] && self.buf@[3] == p[3]);
@@ -800,12 +816,19 @@ let verif_out; loop
                     && self.buf@[0] == sc->payload[0] && self.buf@[1] == sc->payload[1] && self.buf@[2] == sc->payload[2] && self.buf@[3] == sc->payload[3]
                     && cell_val_ok(sc->typ, sc->payload, self.formats@, self.strings@, self.is_1904, verif_out) }),
                 scan(s0, row0) is Cell || scan(s0, row0) is Malformed,
-                self.buf@.len() >= 9,
+                scan(s0, row0) is Cell ==> cell_wf(scan(s0, row0)->typ, scan(s0, row0)->payload, self.strings@.len() as int),
+                self.buf@.len() >= 8,
             decreases self.iter.rem().len(),
 //@@ before /if is_int/
                     proof { if p.len() >= 12 { lemma_rk(p, self.buf@); } }
 //@@ after /if is_int \{\s*let v = [^;]*;/
-                        proof { if p.len() >= 12 { lemma_shr2(signed32(le32(self.buf@.subrange(8, 12))) as i32); } }
+                        proof {
+                            if p.len() >= 12 {
+                                lemma_shr2(signed32(le32(self.buf@.subrange(8, 12))) as i32);
+                                //# C03.rk_int_part
+                                assert(v as int == rk_int(le32(p.subrange(8, 12))));
+                            }
+                        }
 //@@ before /let v = read_f64\(&v/
                         proof {
                             if p.len() >= 12 {
@@ -815,13 +838,6 @@ let verif_out; loop
                                 assert(le64(v@) == 0x1_0000_0000 * le32(q));
                             }
                         }
-//@@ before /DataRef::Int\(/
-                            proof {
-                                if p.len() >= 12 {
-                                    //# C03.rk_int_part
-                                    assert(v as int == rk_int(le32(p.subrange(8, 12))));
-                                }
-                            }
 //@@ after /let v = read_f64\(&v[^;]*;/
                         proof {
                             if p.len() >= 12 {
@@ -841,7 +857,7 @@ let verif_out; loop
             let ghost cur = self.iter.rem();
             let ghost row_h = self.row;
             proof { lemma_scan_step(cur, row_h); axiom_f64_div(); }
-//@@ before /let value = match /
+//@@ after /self\.iter\.fill_buffer\(&mut self\.buf\)\?;/
             proof {
                 lemma_rec_read(cur);
                 assert(self.buf@ =~= rec_payload(cur));
@@ -849,12 +865,11 @@ let verif_out; loop
                 assert(self.iter.rem() == rec_rest(cur));
             }
             let ghost p = self.buf@;
-            // C06: nothing in next_cell checks the length of a record (or the shared string index) before indexing. Stated once, here,
-            // instead of at each of the ~20 index expressions of the arms: this obligation fails (known finding), is then taken as a
-            // hypothesis, and every index / slice / callee precondition below must follow from it -- an index beyond what
-            // `cell_wf` grants (or a new unguarded one) is a new failing obligation.
+            // C06: the record length is checked once, here, against the shortest payload of its kind (`cell_len_ok`); every index / slice /
+            // callee precondition of the arms below must follow from that guard (and the shared string index from the `get` of its arm)
+//@@ before /let value = match /
             //# C06.record_long_enough_for_its_kind
-            assert(record_long_enough(self.typ as int, p, self.strings@.len() as int));
+            assert(record_long_enough(self.typ as int, p));
 //@@ end
 //@@ endimpl
 
